@@ -13,7 +13,8 @@ Atom(n) == [k |-> "atom", n |-> n]
 Over(l, r) == [k |-> "over", l |-> l, r |-> r]
 Under(l, r) == [k |-> "under", l |-> l, r |-> r]
 A == {1, 2}
-T0 == { <<Atom(a)>> : a \in A } \cup { <<Atom(a), Atom(b)>> : a \in A, b \in A }
+\* sides of slash types: the empty type, atoms and pairs of atoms
+T0 == { <<>> } \cup { <<Atom(a)>> : a \in A } \cup { <<Atom(a), Atom(b)>> : a \in A, b \in A }
 I1 == { Over(l, r) : l \in T0, r \in T0 } \cup { Under(l, r) : l \in T0, r \in T0 }
 S1 == T0 \cup { <<i>> : i \in I1 }
 Sm == T0 \cup { <<Over(<<Atom(1)>>, <<Atom(2)>>)>>, <<Under(<<Atom(1), Atom(2)>>, <<Atom(2)>>)>>,
